@@ -77,6 +77,47 @@ func runC07(p *Prog, r *Report) {
 	if want("C07.6") {
 		ruleStartupSweep(p, r, "C07.6")
 	}
+	if want("C07.7") {
+		ruleFileNumRecycling(p, r, "C07.7")
+	}
+}
+
+// ruleFileNumRecycling: session.reuseFileNum hands a file number back to the allocator; the next
+// file created gets that number and stor.Create truncates whatever lives under it. So a number may
+// be recycled only by the code that has just removed the file (or failed to create it) — in
+// particular, for tables, only inside the file cache's deletion callback (which runs once the last
+// reader has released the table), never at the time tOps.remove is merely called.
+func ruleFileNumRecycling(p *Prog, r *Report, rule string) {
+	r.Begin(rule, "E-ORD", "a file number is recycled only after its file is gone: every session.reuseFileNum call is preceded, inside the same function body, by the storage Remove of that file or by its failed Create; for tables that function body is the deletion callback handed to the file cache (run after the last reader released the table)", 4)
+	defer r.End()
+	reuse := evCall("(*leveldb.session).reuseFileNum")
+	gone := orPred(evStorageInvoke("Remove"), evStorageInvoke("Create"))
+	n := 0
+	for _, fn := range p.SrcFuncs("leveldb") {
+		withAnons(fn, func(f *ssa.Function) {
+			if f != fn && f.Parent() != fn {
+				return // each closure is visited once, through its direct parent
+			}
+			if countInstr(f, reuse) == 0 {
+				return
+			}
+			n++
+			r.Fn(fnName(f))
+			ordPrecede(p, r, f, "recycle-after-file-gone", nil, gone, "stor.Remove(fd) / a failed stor.Create(fd)", reuse, "s.reuseFileNum(fd.Num)")
+		})
+	}
+	r.Site(1)
+	r.Check(n >= 4, "leveldb", "recycling-sites", "the known recycling sites exist (newMem, newManifest cleanup, tWriter.drop, the table deletion callback)", fmt.Sprintf("%d functions call reuseFileNum", n), "")
+	// the table deletion callback is the closure passed to fileCache.Delete
+	if fn := resolveFn(p, r, "leveldb", "(*tOps).remove"); fn != nil {
+		r.Site(1)
+		direct := countInstr(fn, reuse)
+		inCb := 0
+		for _, a := range fn.AnonFuncs {
+			inCb += countInstr(a, reuse)
+		}
+		r.Check(direct == 0 && inCb == 1, fnName(fn), "table-number-recycled-in-callback", "tOps.remove recycles the table's number only from the deletion callback (after the last reader released the table and the file was removed)", fmt.Sprintf("%d direct calls, %d in the callback: a number recycled while a reader still holds the table lets the next table overwrite the file under the reader, and the deferred Remove then deletes the new table", direct, inCb), p.Pos(fn.Pos()))
+	}
 }
 
 func ruleDeleters(p *Prog, r *Report, rule string) {
